@@ -185,6 +185,23 @@ def gen_C02(rng, tier):
         for ex in ["00000000", "80000000", "bf800000", "3f800000", "3f000000", "bf000000", "40000000", "40400000", "c0000000", "7f800000", "ff800000", "7fc00000"]:
             L.append("st exp S@1@%s S@2@%s" % (base, ex))
     L.append("st none f")
+    # operand ORDER: a payload whose operators are not commutative (words under concatenation, harness type `w`) through every generic
+    # combinator — f32 / Quantity arithmetic cannot tell `x * y` from `y * x`, this payload can
+    letters = "abcdefgh"
+    for n in range(1, 6):
+        for pat in itertools.product("SN", repeat=n):
+            if "S" not in pat:
+                continue
+            ins = " ".join(out_some(rng.randint(-5, 5), "W:" + letters[i] * rng.randint(1, 2)) if c == "S" else "N" for i, c in enumerate(pat))
+            L.append("st sum w %d %s" % (n, ins))
+            L.append("st prod w %d %s" % (n, ins))
+            L.append("st latest w %d %s" % (n, ins))
+    for ca in CATS_F:
+        for cb in CATS_F:
+            a = out_some(rng.randint(-5, 5), "W:ab") if ca == "S" else ca
+            b = out_some(rng.randint(-5, 5), "W:cd") if cb == "S" else cb
+            for name in ("sum2", "prod2", "diff", "quot"):
+                L.append("st %s w %s %s" % (name, a, b))
     # newest-of / sum / product when EVERY present input carries an extreme timestamp (a running maximum seeded with a sentinel instead
     # of an Option goes wrong exactly there)
     for tx in (I64_MIN, I64_MIN + 1, I64_MAX, 0):
@@ -254,6 +271,11 @@ def gen_C03(rng, tier):
             for y in ["true", "false"]:
                 L.append("st and S@%d@%s S@%d@%s" % (t1, x, t2, y))
                 L.append("st or S@%d@%s S@%d@%s" % (t1, x, t2, y))
+    # Datum arithmetic on the non-commutative word payload (operand order of the ~40 operator impls)
+    for (t1, t2) in TPAIRS[:8]:
+        for op in ("add", "sub", "mul", "div", "addas", "subas", "mulas", "divas"):
+            L.append("d %s w %d@W:ab %d@W:cd" % (op, t1, t2))
+            L.append("d %s w %d@W:ab W:cd" % (op, t1))
     # device-level timestamps (terminal state averaging, inverter / gear train / axle / differential updates), incl. negative times
     for l in subsample(rng, gen_devices(rng, "quick", with_cmds=True, with_states=True), n_of(tier, 250, 1500)):
         L.append(l)
@@ -602,7 +624,7 @@ def gen_C05(rng, tier):
                 evs = []
                 for i, c in enumerate(cs):
                     inp = rng.choice(["S", "S", "S", "N", "E2"])
-                    inp = out_some(100 + i, mk(rng)) if inp == "S" else inp
+                    inp = out_some(rng.choice([100 + i, 100 + i, 100 - i, 100]), mk(rng)) if inp == "S" else inp
                     evs.append(c + ";" + inp)
                 L.append("ss freeze %s %s" % (ty, " ".join(evs)))
         for _ in range(n_of(tier, 100, 1000)):
@@ -610,9 +632,17 @@ def gen_C05(rng, tier):
             for i in range(rng.randint(5, 48)):
                 c = rng.choice(["S@%d@true" % i, "S@%d@false" % i, "S@%d@false" % i, "N", "E1"]) if rng.random() < 0.3 else rng.choice(["S@%d@true" % i, "S@%d@false" % i])
                 inp = rng.choice(["S", "S", "S", "N", "E2"])
-                inp = out_some(100 + i, mk(rng)) if inp == "S" else inp
+                inp = out_some(rng.choice([100 + i, 100 + i, 100 - i, 37]), mk(rng)) if inp == "S" else inp
                 evs.append(c + ";" + inp)
             L.append("ss freeze %s %s" % (ty, " ".join(evs)))
+    # a non-finite sample right after an error / absent event: the cached error must be cleared all the same
+    for bad in ("7f800000", "ff800000", "7fc00000"):
+        for pre in ("E1", "EN", "N"):
+            L.append("ss pid %s %s %s %s S@1000000000@3f800000 %s S@2000000000@%s S@3000000000@40000000" % (mkf(rng), rand_f(rng, -3, 3), rand_f(rng, -3, 3), rand_f(rng, -3, 3), pre, bad))
+            L.append("ss ewma f 3f000000 S@1000000000@3f800000 %s S@2000000000@%s S@3000000000@40000000" % (pre, bad))
+            L.append("ss ma f 1500000000 S@1000000000@3f800000 %s S@2000000000@%s S@3000000000@40000000" % (pre, bad))
+            L.append("ss int S@1000000000@Q:3f800000:1,0 %s S@2000000000@Q:%s:1,0 S@3000000000@Q:40000000:1,0" % (pre, bad))
+            L.append("ss drv S@1000000000@Q:3f800000:1,0 %s S@2000000000@Q:%s:1,0 S@3000000000@Q:40000000:1,0" % (pre, bad))
     # regression corpus for the repaired stale-error defect (F1)
     L.append("ss int E1 S@1000000000@Q:3f800000:1,0 S@2000000000@Q:40000000:1,0")
     L.append("ss drv E1 S@1000000000@Q:3f800000:1,0 S@2000000000@Q:40000000:1,0")
@@ -687,6 +717,10 @@ def gen_C04(rng, tier):
         w = rng.choice([(0.9, 0.04, 0.03, 0.03), (1.0, 0, 0, 0), (0.7, 0.12, 0.09, 0.09)])
         evs = history(rng, n, mkf, weights=w)
         sp, kp, ki, kd = mkf(rng), rand_f(rng, -3, 3), rand_f(rng, -3, 3), rand_f(rng, -3, 3)
+        if rng.random() < 0.12:      # gain ties and zeros: ki = -kd (their SUM is zero but neither is), single non-zero gain
+            g = rand_f(rng, -3, 3)
+            kp, ki, kd = rng.choice([(kp, g, "%08x" % (int(g, 16) ^ 0x80000000)), (f2h(0.0), g, "%08x" % (int(g, 16) ^ 0x80000000)),
+                                     (kp, f2h(0.0), f2h(0.0)), (f2h(0.0), ki, f2h(0.0)), (f2h(0.0), f2h(0.0), kd), (kp, ki, f2h(0.0))])
         ia = len(L)
         L.append("ss pid %s %s %s %s %s" % (sp, kp, ki, kd, " ".join(evs)))
         c = rng.randint(-10 ** 15, 10 ** 15)
@@ -1289,6 +1323,8 @@ def datum_cmd(rng, t):
     "skip the write, nothing changed" test that looks at the number only goes wrong there"""
     if _CMD_POOL and rng.random() < 0.25:
         v = rng.choice(_CMD_POOL[-4:])
+    elif rng.random() < 0.04:
+        v = f2h(rng.choice([-1, 1]) * rng.choice([3e37, 1e38, 3.4e38]))       # huge but finite: x / ratio may overflow to inf, still relayed
     else:
         v = mkf(rng)
         _CMD_POOL.append(v)
@@ -1298,6 +1334,8 @@ def datum_cmd(rng, t):
 
 
 def rand_ratio(rng):
+    if rng.random() < 0.15:      # exactly 1:1 and -1:1 (a "fast path" for ratio*ratio == 1 must still project correctly)
+        return rng.choice(["3f800000", "bf800000"])
     return f2h(rng.choice([-1, 1]) * math.exp(rng.uniform(math.log(1e-2), math.log(1e2))))
 
 
@@ -1305,7 +1343,10 @@ def device_setups(rng):
     """(setup token, number of terminals) for each device kind"""
     yield "inv", 2
     yield "gear:" + rand_ratio(rng), 2
-    yield "geart:" + "+".join(f2h(float(rng.randint(5, 60))) for _ in range(rng.randint(2, 6))), 2
+    teeth = [float(rng.randint(5, 60)) for _ in range(rng.randint(2, 6))]
+    if rng.random() < 0.3:
+        teeth[-1] = teeth[0]         # equal first and last tooth count: ratio exactly +1 or -1
+    yield "geart:" + "+".join(f2h(x) for x in teeth), 2
     yield "axle:%d" % rng.randint(0, 6), None
     for m in ("S1", "S2", "SU", "EQ"):
         yield "diff:" + m, 3
